@@ -12,6 +12,8 @@ From VL Require Import Prelude.Sx Prelude.PyDict Prelude.GDict Model.GetNBest Mo
      Proofs.Dict_proofs Proofs.HA_proofs Proofs.Divisor_proofs Proofs.Mono_proofs Proofs.Additive_proofs
      Proofs.Convert_proofs Proofs.CopelandMono_proofs Proofs.Minimax_proofs Proofs.Condorcet_proofs Proofs.Schulze_proofs Proofs.Bucklin_proofs
      Proofs.BucklinShared_proofs.
+From VL Require Model.Hybrids Proofs.Hybrids_proofs.
+From VL Require Import Proofs.RaisesBallot_proofs.
 Import ListNotations.
 Open Scope Z_scope.
 
@@ -127,6 +129,76 @@ Theorem C17_minimax : forall (v v' : pvotes) (w : C) (s : Condorcet.scorer),
   (2 <= length (candidates v))%nat -> raises v v' w ->
   minimax s v 1 = [Cand w] -> minimax s v' 1 = [Cand w].
 Proof. intros v v' w s Hnn Hnn' H2 Hr. exact (minimax_monotone v v' w Hnn Hnn' H2 Hr s). Qed.
+
+(* ---- from ONE moved ballot to the pairwise counts (Proofs/RaisesBallot_proofs.v), through the model of
+   RankedToCondorcetVotes(unranked_at_bottom=True).convert ([Hybrids.pairwise], Model/Hybrids.v: the fold of the per-ballot image
+   [img_condorcet true] of Model/Convert.v; integer weights; tied to the code by the streams rc-tie here and hybrids of C05).
+   On ONE ballot (x units of it; the profile list may name a ballot twice) w moves from behind the items p2 to the place before
+   them; the ballot may contain shared ranks anywhere, be truncated, the other ballots are arbitrary.  Then the dictionary changes
+   EXACTLY by: count(w, c) += x * (number of times c occurs in p2), count(c, w) -= the same, every other entry unchanged
+   ([jump p2 w a c] = [a = w] * #c in p2 - #a in p2 * [c = w]); and the candidates of the dictionary stay the same SET (their order of
+   first appearance can change, which is why [raises] - equal candidate lists - is weakened to [raises_s]). *)
+Theorem C17_ballot_pairwise_exact : forall (pre post : Hybrids.rvotes) (p1 p2 p3 : ranked) (x : Z) (w a c : C),
+  pget0 (Hybrids.pairwise (pre ++ (p1 ++ IP w :: p2 ++ p3, x) :: post)) (a, c) =
+  pget0 (Hybrids.pairwise (pre ++ (p1 ++ p2 ++ IP w :: p3, x) :: post)) (a, c) + x * jump p2 w a c.
+Proof. intros. apply pairwise_move_exact. Qed.
+
+Theorem C17_ballot_raises : forall (pre post : Hybrids.rvotes) (p1 p2 p3 : ranked) (x : Z) (w : C),
+  0 <= x -> ~ In w (flatten p2) ->
+  raises_s (Hybrids.pairwise (pre ++ (p1 ++ p2 ++ IP w :: p3, x) :: post))
+           (Hybrids.pairwise (pre ++ (p1 ++ IP w :: p2 ++ p3, x) :: post)) w.
+Proof. intros. apply pairwise_move_raises; assumption. Qed.
+
+(* [raises] implies [raises_s]; Copeland and minimax monotonicity hold under the weaker relation *)
+Theorem C17_copeland_s : forall (v v' : pvotes) (w : C) (so : bool),
+  NoDup (map fst v) -> NoDup (map fst v') ->
+  (forall p n, In (p, n) v -> 0 <= n) -> (forall p n, In (p, n) v' -> 0 <= n) ->
+  raises_s v v' w ->
+  copeland false v 1 = [Cand w] -> copeland so v' 1 = [Cand w].
+Proof. intros v v' w so Hnd Hnd' Hnn Hnn' Hr. exact (copeland_monotone_s v v' w Hnd Hnd' Hnn Hnn' Hr so). Qed.
+
+Theorem C17_minimax_s : forall (v v' : pvotes) (w : C) (s : Condorcet.scorer),
+  (forall p n, In (p, n) v -> 0 <= n) -> (forall p n, In (p, n) v' -> 0 <= n) ->
+  (2 <= length (candidates v))%nat -> raises_s v v' w ->
+  minimax s v 1 = [Cand w] -> minimax s v' 1 = [Cand w].
+Proof. intros v v' w s Hnn Hnn' H2 Hr. exact (minimax_monotone_s v v' w Hnn Hnn' H2 Hr s). Qed.
+
+(* Copeland and minimax ON BALLOTS: converter followed by the evaluator.  Copeland: any ballots, weights >= 0.  Minimax: no
+   candidate twice on a ballot, weights >= 0 ([wf_votes]) - this gives the dictionary two candidates. *)
+Theorem C17_copeland_ballots : forall (pre post : Hybrids.rvotes) (p1 p2 p3 : ranked) (x : Z) (w : C) (so : bool),
+  (forall r y, In (r, y) (pre ++ post) -> 0 <= y) -> 0 <= x -> ~ In w (flatten p2) ->
+  copeland false (Hybrids.pairwise (pre ++ (p1 ++ p2 ++ IP w :: p3, x) :: post)) 1 = [Cand w] ->
+  copeland so (Hybrids.pairwise (pre ++ (p1 ++ IP w :: p2 ++ p3, x) :: post)) 1 = [Cand w].
+Proof. intros pre post p1 p2 p3 x w so. apply copeland_ballot_monotone. Qed.
+
+Theorem C17_minimax_ballots : forall (pre post : Hybrids.rvotes) (p1 p2 p3 : ranked) (x : Z) (w : C) (s : Condorcet.scorer),
+  Hybrids_proofs.wf_votes (pre ++ (p1 ++ p2 ++ IP w :: p3, x) :: post) = true -> ~ In w (flatten p2) ->
+  minimax s (Hybrids.pairwise (pre ++ (p1 ++ p2 ++ IP w :: p3, x) :: post)) 1 = [Cand w] ->
+  minimax s (Hybrids.pairwise (pre ++ (p1 ++ IP w :: p2 ++ p3, x) :: post)) 1 = [Cand w].
+Proof. intros pre post p1 p2 p3 x w s. apply minimax_ballot_monotone. Qed.
+
+(* the candidate ORDER of the dictionary does change: (A,B,C) -> (A,C,B) lists the candidates A,B,C resp. A,C,B - so [raises]
+   itself does not hold between the two dictionaries, [raises_s] does *)
+Example C17_ballot_raises_order :
+  let v := Hybrids.pairwise ([] ++ ([IP 1%positive] ++ [IP 2%positive] ++ IP 3%positive :: [], 1) :: []) in
+  let v' := Hybrids.pairwise ([] ++ ([IP 1%positive] ++ IP 3%positive :: [IP 2%positive] ++ [], 1) :: []) in
+  candidates v = [1; 2; 3]%positive /\ candidates v' = [1; 3; 2]%positive /\ ~ raises v v' 3%positive /\ raises_s v v' 3%positive.
+Proof.
+  cbv zeta. split; [vm_compute; reflexivity|]. split; [vm_compute; reflexivity|]. split.
+  - intros (H & _). vm_compute in H. discriminate H.
+  - apply pairwise_move_raises; [lia|]. cbn. intros [H|[]]. discriminate H.
+Qed.
+
+(* non-vacuity: {(A,{B,C},D): 2, (D,A): 1, (B,D): 1} (a shared rank, truncated ballots): A = 1 is the sole minimax and Copeland
+   winner; on the second ballot it moves up, (D,A) -> (A,D); count(D, A) drops from 2 to 1 *)
+Example C17_ballots_example :
+  let pre := [([IP 1; IS [2; 3]; IP 4]%positive, 2)] in let post := [([IP 2; IP 4]%positive, 1)] in
+  Hybrids_proofs.wf_votes (pre ++ ([] ++ [IP 4%positive] ++ IP 1%positive :: [], 1) :: post) = true /\
+  minimax Margins (Hybrids.pairwise (pre ++ ([] ++ [IP 4%positive] ++ IP 1%positive :: [], 1) :: post)) 1 = [Cand 1%positive] /\
+  copeland false (Hybrids.pairwise (pre ++ ([] ++ [IP 4%positive] ++ IP 1%positive :: [], 1) :: post)) 1 = [Cand 1%positive] /\
+  pget0 (Hybrids.pairwise (pre ++ ([] ++ [IP 4%positive] ++ IP 1%positive :: [], 1) :: post)) (4, 1)%positive = 2 /\
+  pget0 (Hybrids.pairwise (pre ++ ([] ++ IP 1%positive :: [IP 4%positive] ++ [], 1) :: post)) (4, 1)%positive = 1.
+Proof. vm_compute. repeat split; reflexivity. Qed.
 
 (* Schulze.  votelib ranks the candidates by their NUMBER OF PATH-WINS (a Copeland count over the beat-path relation),
    not by Schulze's criterion "no path-defeat".  For that ranking the clause is REFUTED (C17_schulze_refuted): raising the
@@ -438,3 +510,9 @@ Print Assumptions C17_preference_addition_split_general.
 Print Assumptions C17_preference_addition_shared.
 Print Assumptions C17_bucklin_shared.
 Print Assumptions C17_oklahoma_shared.
+Print Assumptions C17_ballot_pairwise_exact.
+Print Assumptions C17_ballot_raises.
+Print Assumptions C17_copeland_s.
+Print Assumptions C17_minimax_s.
+Print Assumptions C17_copeland_ballots.
+Print Assumptions C17_minimax_ballots.
